@@ -2,10 +2,10 @@ from run import Family
 
 NALPHA = 13
 BOUNDS = {
-    'quick': {'text': 'every string of length 0..3 over {a _ space ~ \\ n $ { } ( ) " \'} (2380 strings, shape)', 'environment': 'HOME and every referenced name independently unset / empty / 1-2 arbitrary non-NUL bytes (symbolic)',
+    'quick': {'text': 'every string of length 0..2 and every 4th of length 3 over {a _ space ~ \\ n $ { } ( ) " \'}; every string of length 4 and a 16th of length 5 over each of the sub-alphabets {\' \\ ~ a}, {" \\ $ a}, {$ { } a} (shape)', 'environment': 'HOME and every referenced name independently unset / empty / 1-2 arbitrary non-NUL bytes (symbolic)',
               'scratch memory': 'newbuff[], EnvVar, Command and the input buffer beyond its terminator start nondeterministic', 'CONFIG_BUFF': 'scaled to 64 through the LIBAST_VERIF_CONFIG_BUFF hook',
               '%-calls': '12 concrete skeletons over put/get/version with a symbolic store value', 'store': 'one step from every strictly ascending store of 0..3 entries, probe symbolic'},
-    'thorough': {'text': 'length 0..4 (30941 strings; the driver reports how far its budget reached)', 'environment': 'same', 'CONFIG_BUFF': 'same'},
+    'thorough': {'text': 'length 0..4 over the 13-letter alphabet (30941 strings; the driver reports how far its budget reached), length 4..5 over the three sub-alphabets', 'environment': 'same', 'CONFIG_BUFF': 'same'},
 }
 RULE = 'C10 shapes: (text length, text index) - the text is concrete per query; environment, store contents and all uninitialised memory are symbolic.'
 ASSUMPTIONS = ['the reference expander in harness/c10_expand.c transcribes the rules of the property statement; a trailing backslash stays as it is; "$" with an empty name expands to nothing',
@@ -24,6 +24,13 @@ def families(tier):
     for ln in range(0, L + 1):
         for code in range(NALPHA ** ln):
             f.add('C10/expand/len=%d,text=%d' % (ln, code), 'h_expand', ln, code)
+    fs = Family('expand_sub', 'c10_expand.c', note='longer texts over three 4-letter sub-alphabets (quote/escape/tilde, double quote/escape/reference, braced references)', **common)
+    for sub, sn in enumerate(('squote', 'dquote', 'braces')):
+        for ln in (4, 5):
+            for code in range(4 ** ln):
+                if ln == 5 and q and (code * 40503 + sub) % 65521 % 16 != 0:
+                    continue
+                fs.add('C10/expand_sub/%s/len=%d,text=%d' % (sn, ln, code), 'h_expand_sub', sub, ln, code)
     g = Family('overread', 'c10_expand.c', note='exact-size input object, empty environment', **common)
     for ln in range(0, L + 1):
         for code in range(NALPHA ** ln):
@@ -41,5 +48,5 @@ def families(tier):
     if q:
         # quick: lengths 0..2 completely, and every 4th string of length 3 (the full length-3 sweep is in thorough)
         f.obls = [o for o in f.obls if not o.oid.startswith('C10/expand/len=3') or (o.args[1] % 4 == 0)]
-        g.obls = [o for o in g.obls if not o.oid.startswith('C10/overread/len=3') or (o.args[1] % 4 == 1)]
-    return [f, g, h]
+        g.obls = [o for o in g.obls if not o.oid.startswith('C10/overread/len=3')]
+    return [f, fs, g, h]
